@@ -39,10 +39,13 @@ def build(shape):
         th.pop("SIN2TW", None)
     if shape["ptodis"] != "absent":
         th["TMC"] = 1       # target-mass corrections shift the kinematics internally: the caller's points stay what they were
-    xg = cards.make_grid(3, 3, x_min=1e-2)
+    xg = list(cards.make_grid(3, 3, x_min=1e-2))
+    if shape["qed"] != "absent":
+        xg = xg[::-1]      # (the card may list the nodes in any order; the output records the grid actually USED, which is ascending)
     tgt = dict(TARGET_DICT) if shape["target"] == "dict" else shape["target"]
     # (an observable without kinematic points is a legitimate card entry: it comes back as an empty list)
-    ob = cards.obs({"F2_total": [dict(x=0.3, Q2=30.0), dict(x=0.1, Q2=5.0), dict(x=0.2, Q2=12.0)], "F3_charm": []}, xgrid=xg, deg=2,
+    ob = cards.obs({"F2_total": [dict(x=0.3, Q2=30.0), dict(x=0.1, Q2=5.0), dict(x=0.2, Q2=12.0)], "F3_charm": [],
+                    "FL": [dict(x=0.25, Q2=9.0)]}, xgrid=xg, deg=2,      # (FL: an observable in its short spelling)
                    prDIS="EM", TargetDIS=tgt, ProjectileDIS="positron")
     return th, ob
 
@@ -134,7 +137,8 @@ def execute(ob_):
             line["caller_unchanged_by_runner"] = (th == snap_t and ob == snap_o)
             line["nested_identity_kept"] = nested_ids(ob) == ids0
             line["echo_cards"] = (out.theory == snap_t and out.observables == snap_o and out_b.theory == snap_t)
-            line["echo_meta"] = (list(out["xgrid"]["grid"]) == list(snap_o["interpolation_xgrid"])
+            line["echo_meta"] = (list(out["xgrid"]["grid"]) == sorted(snap_o["interpolation_xgrid"])
+                                 and "FL" in out and len(out["FL"]) == len(snap_o["observables"].get("FL", []))
                                  and bool(out["xgrid"]["log"]) == bool(snap_o["interpolation_is_log"])
                                  and int(out["polynomial_degree"]) == snap_o["interpolation_polynomial_degree"]
                                  and list(out["pids"]) == list(br.flavor_basis_pids) and out["projectilePID"] == -11
